@@ -25,6 +25,8 @@ package mempool
 //@ ensures[fpb] hi(p.txn) == hi(otherP.txn) && fpb(p.txn) != fpb(otherP.txn) ==> (result > 0) == (fpb(p.txn) > fpb(otherP.txn)) && result != 0
 //@ ensures[netfee] hi(p.txn) == hi(otherP.txn) && fpb(p.txn) == fpb(otherP.txn) ==> (result > 0) == (p.txn.NetworkFee > otherP.txn.NetworkFee) && (result == 0) == (p.txn.NetworkFee == otherP.txn.NetworkFee)
 
+// (The per-payer fee bookkeeping also carries C07: what the pool holds for one payer is covered by its balance.)
+//@ prop C07,C08
 //@ func getPayer
 //@ requires wfTx(tx)
 //@ ensures[payer] result0 == payerOf(tx)
@@ -84,6 +86,7 @@ package mempool
 //@ loop 4 invariant[sum] uint256.u256(expectedPayerFee.feeSum) == (uint256.u256(actualPayerFee.feeSum) - sumFees(conflictsToBeRemoved, $i, p)) % uint256.two256()
 //@ loop 4 invariant[bal] uint256.u256(expectedPayerFee.balance) == uint256.u256(actualPayerFee.balance)
 
+//@ prop C08
 // Structural pool invariants needed by removal and insertion.
 //@ spec wfItems(mp *Pool) bool = forall(j, 0, len(mp.verifiedTxes), mp.verifiedTxes[j].txn != nil && wfTx(mp.verifiedTxes[j].txn) && transaction.wfAttrs(mp.verifiedTxes[j].txn))
 //@ spec wfCount(mp *Pool) bool = forallkeys(mp.verifiedMap, k, has(mp.verifiedMap, k) ==> exists(j, 0, len(mp.verifiedTxes), transaction.txHash(mp.verifiedTxes[j].txn) == k))
